@@ -310,6 +310,36 @@ fn run<C: Coll>(ops: &[Op], obs: &mut Obs) -> Result<(), Fail> {
                     if let Some(true) = guard("eq", n, || c.eq_to(&c3))? {
                         return Err(Fail::new(format!("eq-different:{n}"), format!("step {step}: equal to a collection holding one more tuple; model {m:?}")));
                     }
+                    // same length, different multiplicities: move one occurrence of a stored
+                    // tuple onto another tuple (present or not) — must compare unequal both ways
+                    if let Some((t1, _)) = m.iter().next() {
+                        for t2 in [(3u8, 2u16), (0, 0), (1, 1)] {
+                            if t2 == *t1 || C::IS_SET && m.contains_key(&t2) {
+                                continue;
+                            }
+                            let mut m2 = m.clone();
+                            let e = m2.get_mut(t1).unwrap();
+                            *e -= 1;
+                            if *e == 0 {
+                                m2.remove(t1);
+                            }
+                            *m2.entry(t2).or_default() += 1;
+                            let rows2: Vec<Row> = m2
+                                .iter()
+                                .flat_map(|(r, k)| std::iter::repeat(*r).take(*k))
+                                .map(row)
+                                .collect();
+                            if let Some(c4) = C::rebuild(rows2) {
+                                let r = guard("eq", n, || (c.eq_to(&c4), c4.eq_to(&c)))?;
+                                if r != (Some(false), Some(false)) {
+                                    return Err(Fail::new(
+                                        format!("eq-same-len-different-contents:{n}"),
+                                        format!("step {step}: {m:?} vs {m2:?} compare {r:?} (expected unequal both ways)"),
+                                    ));
+                                }
+                            }
+                        }
+                    }
                     // into_iter of the rebuilt one
                     let got = multiset(&guard("into_iter", n, || c2.into_rows())?);
                     if got != m {
